@@ -173,8 +173,49 @@ def locate(lang, text, P, with_newtype):
     return out, ex['unparsed'] + ex['anomalies']
 
 
+# Go: uppercase_acronyms lists of the site phases (given in lower, upper and mixed case; `go` hits the mapped name MappedGo,
+# `time` the mapped name time.Time, id / url / uuid / foo the user types UserId, Url, Uuid, Foo; xy, yZw: a non-idempotent pair;
+# no / it / con / ba / po occur in Node, Item, Config, Bar, Baz, Point followed by a lower-case letter: they must NOT be rewritten)
+GO_ACRONYMS = [[], [], ['id'], ['ID', 'url'], ['id', 'url', 'uuid', 'api'], ['foo', 'go', 'Time'], ['xy', 'yZw', 'Id'],
+               # occurrences FOLLOWED BY A LOWER-CASE LETTER must stay (Node, Item, Config, Bar, Point: go.rs:588)
+               ['no', 'it', 'id'], ['con', 'ba', 'po', 'url']]
+
+
+def go_cfg(rng, cfg):
+    a = rng.choice(GO_ACRONYMS)
+    return dict(cfg, uppercase_acronyms=a) if a else cfg
+
+
+def go_rewrite_text(acrs, name):
+    """acronyms_to_uppercase on ASCII text (only used to tell the type-text parser which verbatim atoms to expect:
+    the rewritten type_mappings values; the verdict is the extracted good_C05_site_go)"""
+    res = list(name)
+    for a in acrs:
+        pat = ''.join(w[:1].upper() + (w[1:].lower() if a.upper() == a else w[1:]) for w in a.split('_'))
+        if not pat:
+            continue
+        i = name.find(pat)
+        while i >= 0:
+            nxt = name[i + len(pat):i + len(pat) + 1]
+            if not (nxt and nxt.islower()):
+                res[i:i + len(pat)] = list(pat.upper())
+            i = name.find(pat, i + len(pat))
+    return ''.join(res)
+
+
+def go_hit(acrs, text):
+    """the text shows an upper-cased acronym (counter only)"""
+    for a in acrs:
+        pat = ''.join(w[:1].upper() + (w[1:].lower() if a.upper() == a else w[1:]) for w in a.split('_'))
+        if pat and pat.upper() != pat and pat.upper() in text:
+            return True
+    return False
+
+
 def judge_sites(lang, cfg, sites, texts):
     atoms = list((cfg.get('type_mappings') or {}).values())
+    if lang == 'go' and cfg.get('uppercase_acronyms'):
+        atoms += [go_rewrite_text(cfg['uppercase_acronyms'], a) for a in atoms]
     obs = []
     for kind, where, g, t in sites:
         txt = texts.get(where)
@@ -211,6 +252,10 @@ def run_cases(chk, V, phase, cases, results, with_newtype):
         js = judge_sites(lang, cfg, sites, texts)
         for (kind, where, g, t), (o, e, dom, known, good, erase) in zip(sites, js):
             chk.count(f'{phase}_site_{kind}')
+            if lang == 'go' and cfg.get('uppercase_acronyms'):
+                chk.count(f'{phase}_go_acronym_sites')
+                if kind in ('field', 'payload') and o is not None and go_hit(cfg['uppercase_acronyms'], texts.get(where) or ''):
+                    chk.count(f'{phase}_go_acronym_sites_rewritten')
             payload = dict(base, site=kind, where=list(where), generics=g, type=t, rust=T.rust_name(t), real_text=texts.get(where),
                            observed=T.show_tree(o) if o else e, expected=T.show_tree(erase), known=known, real_output=impl[1])
             if e is not None and odd:      # the extractor left lines of the real text unread: the site cannot be located, nothing can be judged
@@ -237,6 +282,8 @@ def phase_sites_ir(chk, V, n):
         for lang in LANGS:
             P = plan(rng, lang)
             cfg = T.rand_cfg(rng, lang, all_types(P), T.PARAMS)
+            if lang == 'go':
+                cfg = go_cfg(rng, cfg)
             items = ir_items(P)
             cases.append((lang, cfg, P, items))
     res = back.run_ir([(l, c, it, False) for l, c, P, it in cases])
@@ -250,6 +297,8 @@ def phase_sites_src(chk, V, n):
         for lang in LANGS:
             P = plan(rng, lang)
             cfg = T.rand_cfg(rng, lang, all_types(P), T.PARAMS)
+            if lang == 'go':
+                cfg = go_cfg(rng, cfg)
             cases.append((lang, cfg, P, rust_items(rng, P)))
     res = back.run_src([(l, c, src, []) for l, c, P, src in cases])
     run_cases(chk, V, 'sites_src', cases, res, with_newtype=True)
